@@ -210,7 +210,7 @@ func (env *SpecEnv) lookupIdent(name string) (SVal, error) {
 		}
 	}
 	if env.loop != nil && (name == "rangepos" || name == "rangelen") {
-		rm := e.headerRange(env.loop)
+		rm := e.rangeFor(env)
 		if rm == nil {
 			return SVal{}, fmt.Errorf("%s: loop does not iterate a map with the exact enumeration model", name)
 		}
@@ -828,6 +828,10 @@ func (env *SpecEnv) call(x *CExpr) (SVal, error) {
 		if err != nil {
 			return SVal{}, err
 		}
+		if types.IsInterface(t) {
+			// interface-to-interface assertion keeps the dynamic value
+			return SVal{T: a.T, Typ: t, Sort: "Iface"}, nil
+		}
 		_, ub, _ := W.boxFns(t)
 		return SVal{T: app(ub, a.T), Typ: t, Sort: W.sortOf(t)}, nil
 	case "box": // box(x) for a typed x
@@ -844,7 +848,7 @@ func (env *SpecEnv) call(x *CExpr) (SVal, error) {
 		if env.loop == nil {
 			return SVal{}, fmt.Errorf("rangekey outside loop invariant")
 		}
-		rm := e.headerRange(env.loop)
+		rm := e.rangeFor(env)
 		if rm == nil {
 			return SVal{}, fmt.Errorf("rangekey: loop does not iterate a map with the exact enumeration model")
 		}
@@ -867,7 +871,7 @@ func (env *SpecEnv) call(x *CExpr) (SVal, error) {
 		if env.loop == nil {
 			return SVal{}, fmt.Errorf("rangeidx outside loop invariant")
 		}
-		rm := e.headerRange(env.loop)
+		rm := e.rangeFor(env)
 		if rm == nil {
 			return SVal{}, fmt.Errorf("rangeidx: loop does not iterate a map with the exact enumeration model")
 		}
@@ -1360,4 +1364,32 @@ func (e *Enc) specDefs() string {
 		out = append(out, "(define-funs-rec ("+strings.Join(decls, "\n  ")+")\n ("+strings.Join(bodies, "\n  ")+"))")
 	}
 	return strings.Join(out, "\n")
+}
+
+
+// rangeFor: the exact map-range model of the invariant's own loop or, if that loop does
+// not iterate a map, of the innermost enclosing loop that does.
+func (e *Enc) rangeFor(env *SpecEnv) *rangeModel {
+	if env.loop == nil {
+		return nil
+	}
+	if rm := e.headerRange(env.loop); rm != nil {
+		return rm
+	}
+	if env.fr == nil {
+		return nil
+	}
+	var best *loopInfo
+	for _, lj := range env.fr.loops {
+		if lj == env.loop || !lj.body[env.loop.header] || e.headerRange(lj) == nil {
+			continue
+		}
+		if best == nil || best.body[lj.header] {
+			best = lj
+		}
+	}
+	if best == nil {
+		return nil
+	}
+	return e.headerRange(best)
 }
